@@ -122,6 +122,11 @@ pub fn cli_main() {
             println!("replayed {} cases, {bad} with violations", to.saturating_sub(from));
             if bad > 0 { 1 } else { 0 }
         }
+        Some("shrink-crash") => {
+            // shrink-crash <Cxx> <file> : reduce a case that kills the process (or violates an oracle)
+            // by greedy step / op deletion, each candidate replayed in a child process
+            shrink_crash(&args[2], &args[3])
+        }
         Some("decode") => {
             // decode <history|layout|builders> <bytes-file> : print the case a fuzz input decodes to
             let data = std::fs::read(&args[3]).unwrap();
@@ -180,6 +185,7 @@ fn worker(prop: &str, tier: &str, tag: &str) -> i32 {
     let mut total = campaign::CampaignResult::default();
     // 1. directed templates and the regression corpus
     let mut fixed: Vec<(String, lang::Case)> = templates::cases(prop);
+    let mut fixed_reuse: Vec<(String, lang::Case)> = Vec::new();
     for dir in [format!("{root}/corpus/regress/{prop}"), format!("{root}/corpus/seed")] {
         if let Ok(rd) = std::fs::read_dir(&dir) {
             let mut names: Vec<_> = rd.filter_map(|e| e.ok()).map(|e| e.path()).filter(|p| p.extension().map(|x| x == "json").unwrap_or(false)).collect();
@@ -187,15 +193,27 @@ fn worker(prop: &str, tier: &str, tag: &str) -> i32 {
             for p in names {
                 if let Ok(s) = std::fs::read_to_string(&p) {
                     match evidence::case_from_file_text(&s) {
-                        Ok(c) => fixed.push((p.display().to_string(), c)),
+                        Ok(c) => {
+                            let reuse = serde_json::from_str::<serde_json::Value>(&s).ok().and_then(|v| v.get("reuse_addresses").and_then(|b| b.as_bool())).unwrap_or(false);
+                            if reuse {
+                                fixed_reuse.push((p.display().to_string(), c));
+                            } else {
+                                fixed.push((p.display().to_string(), c));
+                            }
+                        }
                         Err(e) => eprintln!("gcverif: cannot parse {}: {e}", p.display()),
                     }
                 }
             }
         }
     }
-    let n_fixed = fixed.len();
+    let n_fixed = fixed.len() + fixed_reuse.len();
     campaign::run_fixed(&plan, &fixed, &mut total);
+    if !fixed_reuse.is_empty() {
+        let mut p2 = profiles::plan(prop).unwrap();
+        p2.opts.reuse_addresses = true;
+        campaign::run_fixed(&p2, &fixed_reuse, &mut total);
+    }
 
     // 2. random campaign
     if total.failure.is_none() && total.internal.is_empty() {
@@ -522,4 +540,86 @@ fn input_worker(prop: &str, tier: &str, tag: &str, seed: u64, thorough: bool, ro
     evidence::write_part(root, prop, tier, seed, tag, cov, &assumptions, rep.wall, violations);
     println!("{prop} {tier} [{tag}]: {} cases, {} distinct non-trivial classes, {:.1}s, exit {code}", r.evaluations, distinct, rep.wall);
     code
+}
+
+/// A candidate "still fails" if the child dies on a signal / aborts, or reports a violation.
+fn child_fails(exe: &std::path::Path, file: &str) -> bool {
+    let out = std::process::Command::new("timeout").arg("60").arg(exe).arg("replay").arg(file).stdout(std::process::Stdio::null()).stderr(std::process::Stdio::null()).status();
+    match out {
+        Ok(st) => match st.code() {
+            Some(0) | Some(2) | Some(124) => false,
+            Some(_) => true, // 1 = violation, >= 100 = fatal signal via the handler
+            None => true,    // killed by a signal
+        },
+        Err(_) => false,
+    }
+}
+
+fn shrink_crash(prop: &str, path: &str) -> i32 {
+    let Ok(text) = std::fs::read_to_string(path) else { return 2 };
+    let Ok(mut case) = evidence::case_from_file_text(&text) else { return 2 };
+    let exe = std::env::current_exe().unwrap();
+    let tmp = format!("{path}.shrink.tmp");
+    let write = |c: &lang::Case| {
+        let body = serde_json::json!({"property": prop, "oracle": "process died while replaying", "case": serde_json::to_value(c).unwrap()});
+        std::fs::write(&tmp, serde_json::to_string(&body).unwrap()).is_ok()
+    };
+    if !write(&case) || !child_fails(&exe, &tmp) {
+        // not reproducible in isolation: keep the original
+        let _ = std::fs::remove_file(&tmp);
+        println!("shrink-crash: the case does not fail when replayed alone; keeping it as it is");
+        return 0;
+    }
+    let mut budget = 600;
+    let mut changed = true;
+    while changed && budget > 0 {
+        changed = false;
+        // whole steps
+        let mut i = 0;
+        while i < case.steps.len() && budget > 0 {
+            if case.steps.len() <= 1 {
+                break;
+            }
+            let mut t = case.clone();
+            t.steps.remove(i);
+            budget -= 1;
+            if write(&t) && child_fails(&exe, &tmp) {
+                case = t;
+                changed = true;
+            } else {
+                i += 1;
+            }
+        }
+        // ops inside steps
+        for si in 0..case.steps.len() {
+            let n_ops = match &case.steps[si] {
+                lang::Step::Mutate { ops, .. } | lang::Step::Finalize { ops, .. } | lang::Step::MapRoot { ops, .. } | lang::Step::NewArena { ops, .. } => ops.len(),
+                _ => 0,
+            };
+            let mut oi = 0;
+            let mut left = n_ops;
+            while oi < left && budget > 0 {
+                let mut t = case.clone();
+                match &mut t.steps[si] {
+                    lang::Step::Mutate { ops, .. } | lang::Step::Finalize { ops, .. } | lang::Step::MapRoot { ops, .. } | lang::Step::NewArena { ops, .. } => {
+                        ops.remove(oi);
+                    }
+                    _ => {}
+                }
+                budget -= 1;
+                if write(&t) && child_fails(&exe, &tmp) {
+                    case = t;
+                    left -= 1;
+                    changed = true;
+                } else {
+                    oi += 1;
+                }
+            }
+        }
+    }
+    let _ = std::fs::remove_file(&tmp);
+    let body = serde_json::json!({"property": prop, "oracle": "memory fault / abort while executing this history against the safe API (shrunk by replaying candidates in child processes)", "case": serde_json::to_value(&case).unwrap()});
+    let _ = std::fs::write(path, serde_json::to_string_pretty(&body).unwrap());
+    println!("shrink-crash: reduced to {} steps", case.steps.len());
+    0
 }
